@@ -23,7 +23,7 @@ CHECKS = {
    text="Every arrival order (identity, reversal, adjacent transpositions, a generated permutation, all n! for <= 6 chunks) gives the same result; fault-free result equals direct decoding of the concatenation; every injected fault (drop, duplicate, foreign board, foreign chip, EOM toggle, resize, renumbered id, bytes moved between chunks, one id lost and another repeated) is rejected.",
    note="Orders beyond 6 chunks are sampled.", ref="DESIGN.md section 4 C04"),
  "C05": dict(engine="proptest+libfuzzer", technique="differential testing against an independent reference validator + accessor model + round trip (proptest, libFuzzer)",
-   text="Reference validator agreement, channel lists through an independent readout table, waveform_at for all 79 channels (present/absent), scalar accessors, byte-exact re-encoding; constructed packets with one-rule mutations, systematic single-channel masks, all values of the four enum-like header bytes, and the largest packets of the format (60-79 channels x 400-511 samples).",
+   text="Reference validator agreement, channel lists through an independent readout table, waveform_at for all 79 channels (present/absent; ascending, second pass, descending and scattered order on one packet object), scalar accessors, byte-exact re-encoding; constructed packets with one-rule mutations, systematic single-channel masks, all values of the four enum-like header bytes, and the largest packets of the format (60-79 channels x 400-511 samples).",
    note="The reference validator is trusted as the reading of the statement; shares only the MAC table.", ref="DESIGN.md section 4 C05"),
  "C06": dict(engine="proptest+libfuzzer", technique="differential testing against a reference validator + round trip; exhaustive single-bit and counter-ordering enumeration",
    text="Reference validator agreement, all accessors incl. the Option wrappers, ordering of accepted counters, byte-exact re-encoding; generated boundary-value packets with mutations (incl. the same bits flipped in two words and one word copied over another) plus exhaustive enumeration of all 640 single-bit changes on 6 base packets, all 256 counter orderings on 5 bases, all lengths 0..=200.",
@@ -32,7 +32,7 @@ CHECKS = {
    text="Entries, consumed length and untouched remainder equal a 30-line reference scanner; a second call makes no progress; feeding the stream in pieces (every single cut position, generated multi-piece partitions) equals parsing it whole; word classification enumerated (all 2^32 words in thorough).",
    note="Multi-piece partitions are sampled.", ref="DESIGN.md section 4 C07"),
  "C08": dict(engine="proptest", technique="exhaustive enumeration (names, run numbers, boards x chips x channels) against a reference grammar and bijection counting, plus proptest for non-ASCII / other lengths",
-   text="Purity of the maps under generated call histories and a board-major sweep (same answer as in a run-major sweep); every 4-byte name over an alphabet (all 128^4 ASCII strings in thorough) and other lengths through all 13 name parsers against a reference grammar; accepted names injective and `==` on the parsed name types true exactly for identical names (all pairs); names of 256 / 512 / 65536 +- 4 bytes rejected; for every run number 0..=20000 and extremes the wire map is a bijection onto 256 wires or all-Err, the PWB placement has exactly 64 boards on 64 cells or all-Err, the pad map is a bijection onto 18432 pads; simulation == run 5000; wire/pad-column association equals geometry.",
+   text="Purity of the maps under generated call histories and a board-major sweep (same answer as in a run-major sweep); every 4-byte name over an alphabet (all 128^4 ASCII strings in thorough) and other lengths through all 13 name parsers against a reference grammar; accepted names injective and `==` on the parsed name types true exactly for identical names (all pairs); names of 256 / 512 / 65536 +- 4 bytes rejected; wire / pad positions obtained through serde accepted exactly when TryFrom<usize> accepts the index; for every run number 0..=20000 and extremes the wire map is a bijection onto 256 wires or all-Err, the PWB placement has exactly 64 boards on 64 cells or all-Err, the pad map is a bijection onto 18432 pads; simulation == run 5000; wire/pad-column association equals geometry.",
    note="Geometry association is read through the verif-hooks feature (wire_to_pad_column / pad_column_to_wires); golden board tables trusted.", ref="DESIGN.md section 4 C08"),
  "C09": dict(engine="proptest", technique="property-based robustness testing (proptest): junk bank lists, realistic and forward-model events, CRC-valid extreme edits; catch_unwind + finiteness oracle; both overflow-check profiles; thorough tier adds coverage-guided fuzzing (honggfuzz) of a byte-driven event generator",
    text="No generated bank list makes event building, timestamp(), avalanches() or vertex() panic, and every returned avalanche/vertex is finite, in builds with and without overflow checks; generated: junk banks, hit-pattern events, forward-model annihilations, and events re-encoded with valid CRCs/baselines after extreme edits (i16/ADC limits, waveform lengths 64..703 (65533 thorough), requested_samples 0/1/100/101/511, all 79 channels, full wire ring, header fields the reconstruction does not read varied (threshold mask != sent mask, counters, timestamps), duplicated/dropped/foreign/corrupted banks, all calibration eras).",
